@@ -116,6 +116,10 @@ fn cb_action(mut env: ActionEnv) {
                     script_finalize_again_g("cleaning action run by a destructor");
                 }
             },
+            ActionKind::NewCyclicSaveWeakPanics => {
+                #[cfg(feature = "weak")]
+                script_new_cyclic_save_weak_panics();
+            },
         }
     }
     // Release what the closure captured
@@ -925,6 +929,109 @@ fn op_new_cyclic(a: u8, script: Closure) {
             }
             if !expected {
                 resume_unwind(p);
+            }
+        },
+    }
+}
+
+/// Called from finalizer / destructor / action scripts: `Cc::new_cyclic` whose closure saves a clone of its Weak in
+/// the weak variable w0 and then panics. The script catches the panic (the callback goes on). The allocation made
+/// for the value must be gone, the side record must survive for the saved Weak, and that Weak must stay dead for
+/// ever (checked by the weak-variable oracles after every later operation).
+#[cfg(feature = "weak")]
+fn script_new_cyclic_save_weak_panics() {
+    let c = ctx();
+    if c.cfg.nw == 0 || c.wvars[0].borrow().is_some() || c.model.borrow().wvars[0].is_some() {
+        return;
+    }
+    let id = {
+        let mut m = c.model.borrow_mut();
+        if m.objs.len() >= c.cfg.nobj {
+            return;
+        }
+        let mut o = MObj::new();
+        o.constructed = false;
+        o.cyclic_pending = true;
+        m.objs.push(o);
+        (m.objs.len() - 1) as u8
+    };
+    let closure_ran = Cell::new(false);
+    let r = {
+        let _f = FrameGuard::new(Frame::Api { collect_like: true, collecting: false });
+        let depth = c.stack.borrow().len();
+        let r = catch_unwind(AssertUnwindSafe(|| {
+            Cc::new_cyclic(|w: &Weak<Node>| -> Node {
+                closure_ran.set(true);
+                drain_alloc();
+                let addr = last_tagged_box();
+                {
+                    let mut m = c.model.borrow_mut();
+                    let o = &mut m.objs[id as usize];
+                    o.addr = addr;
+                    o.boxed = true;
+                    o.size = alloc::block(addr).map_or(0, |b| b.size);
+                    o.side = unsafe { hk::snapshot_at(addr) }.metadata_addr;
+                }
+                *c.wvars[0].borrow_mut() = Some(w.clone());
+                c.model.borrow_mut().wvars[0] = Some(WRef::Obj(id));
+                std::panic::panic_any(CLOSURE_PANIC);
+            })
+        }));
+        unwind_fix_stack(depth);
+        r
+    };
+    drain_alloc();
+    {
+        let mut m = c.model.borrow_mut();
+        let o = &mut m.objs[id as usize];
+        o.cyclic_pending = false;
+        o.cyclic_failed = true;
+        o.constructed = false;
+    }
+    match r {
+        Ok(cc) => {
+            v!("C14", "P-cyclic", "new_cyclic returned normally although its closure panicked");
+            std::mem::forget(cc);
+        },
+        Err(_) => {
+            if closure_ran.get() {
+                // (1) safety, which C07 demands after any callback panic: the saved Weak is dead from now on
+                c.closure_panic_caught.set(true);
+                let up = {
+                    let w = c.wvars[0].borrow();
+                    match w.as_ref() {
+                        Some(w) => {
+                            if w.strong_count() != 0 {
+                                v!("C08", "P-upg", "a Weak saved by a new_cyclic closure that panicked reports strong_count() = {} (never-initialised value)", w.strong_count());
+                            }
+                            if has_violation() { None } else { checked_upgrade(w, WRef::Obj(id)) }
+                        },
+                        None => None,
+                    }
+                };
+                if let Some(cc) = up {
+                    std::mem::forget(cc);
+                }
+                // (2) release of the memory, which only C14 demands (a leak is permitted damage for C07)
+                if !has_violation() {
+                    c.closure_panic_caught.set(false);
+                    let addr = c.model.borrow().objs[id as usize].addr;
+                    match alloc::block(addr) {
+                        Some(b) if b.freed => c.model.borrow_mut().objs[id as usize].freed = true,
+                        other => v!("C14", "P-cyclic", "new_cyclic (called from a callback) unwound but the allocation made for the value was not released ({:?})", other),
+                    }
+                    let side = c.model.borrow().objs[id as usize].side;
+                    match alloc::block(side) {
+                        Some(b) if b.kind == alloc::Kind::Side && !b.freed => {},
+                        other => v!("C14", "P-cyclic", "new_cyclic (called from a callback) unwound with a saved Weak but its side record is {:?}", other),
+                    }
+                    c.closure_panic_caught.set(true);
+                }
+            } else {
+                // the panic came from the automatic collection run before the closure (refused inside callbacks of a
+                // running collection; possible from a callback of a plain Cc::drop)
+                c.closure_panic_caught.set(true);
+                c.model.borrow_mut().objs[id as usize].freed = true;
             }
         },
     }
